@@ -1,35 +1,42 @@
-(* statement pins and axiom audit for C14 (compiled on every check) *)
+(* statement pins and axiom audit for C14 (compiled on every check; regenerate BY HAND with driver/mkpins.py) *)
 From Coq Require Import String.
 From ChiaV.Base Require Import Bytes.
-From ChiaV.Stream Require Import Universe Versioned Codec Total ValText.
+From ChiaV.Stream Require Import Universe Versioned Codec Total ValText TotalProofs.
 From ChiaV.Gen Require Import StreamTypes.
-From ChiaV.Props Require Import C14.
 Open Scope N_scope.
-
-Check C14_decode_never_panics : forall O tr t bs a, tdecode O tr t bs a <> TPanic.
+From ChiaV.Props Require Import C14.
+Check C14_decode_never_panics :
+  forall O tr t bs a, tdecode O tr t bs a <> TPanic.
 Print Assumptions C14_decode_never_panics.
-Check C14_from_bytes_never_panics : forall O tr t bs, t_from_bytes O tr t bs <> FPanic.
+Check C14_from_bytes_never_panics :
+  forall O tr t bs, t_from_bytes O tr t bs <> FPanic.
 Print Assumptions C14_from_bytes_never_panics.
-Check C14_instrumented_refines_decode : forall O tr t bs a,
+Check C14_instrumented_refines_decode :
+  forall O tr t bs a,
   match tdecode O tr t bs a with
   | TOk v r a' => decode O tr t bs = Some (v, r) /\ a <= a'
   | TErr a' => decode O tr t bs = None /\ a <= a'
   | TPanic => False
   end.
 Print Assumptions C14_instrumented_refines_decode.
-Check C14_from_bytes_ok_iff : forall O tr t bs v,
+Check C14_from_bytes_ok_iff :
+  forall O tr t bs v,
   (exists a, t_from_bytes O tr t bs = FOk v a) <-> from_bytes_gen O tr t bs = Some v.
 Print Assumptions C14_from_bytes_ok_iff.
-Check C14_consumed_le_length : forall O, prog_len_stable_hyp O -> forall tr t bs a v r a',
+Check C14_consumed_le_length :
+  forall O, prog_len_stable_hyp O -> forall tr t bs a v r a',
   tdecode O tr t bs a = TOk v r a' -> nlen r <= nlen bs.
 Print Assumptions C14_consumed_le_length.
-Check C14_trailing_bytes_rejected : forall O, prog_len_stable_hyp O -> prog_len_pos_hyp O -> forall tr t bs v a extra,
+Check C14_trailing_bytes_rejected :
+  forall O, prog_len_stable_hyp O -> prog_len_pos_hyp O -> forall tr t bs v a extra,
   t_from_bytes O tr t bs = FOk v a -> extra <> [] -> exists a', t_from_bytes O tr t (bs ++ extra) = FErr a'.
 Print Assumptions C14_trailing_bytes_rejected.
-Check C14_missing_bytes_rejected : forall O, prog_len_stable_hyp O -> prog_len_pos_hyp O -> forall tr t bs v a extra,
+Check C14_missing_bytes_rejected :
+  forall O, prog_len_stable_hyp O -> prog_len_pos_hyp O -> forall tr t bs v a extra,
   t_from_bytes O tr t (bs ++ extra) = FOk v a -> extra <> [] -> exists a', t_from_bytes O tr t bs = FErr a'.
 Print Assumptions C14_missing_bytes_rejected.
-Check C14_ops_on_decoded_values_total : forall O, prog_len_stable_hyp O -> forall tr t bs v r,
+Check C14_ops_on_decoded_values_total :
+  forall O, prog_len_stable_hyp O -> forall tr t bs v r,
   decode O tr t bs = Some (v, r) ->
   (exists e, encode t v = Some e) /\
   (has_bad_pos O t v = false -> exists b, digest O t v = DOk b) /\
@@ -41,13 +48,31 @@ Check C14_pos_hash_refuted :
   encode PoS f_c14_1_value = Some f_c14_1_witness /\
   digest toy_oracles PoS f_c14_1_value = DPanic /\ has_bad_pos toy_oracles PoS f_c14_1_value = true.
 Print Assumptions C14_pos_hash_refuted.
-Check C14_alloc_bound_partial_vec_reservation : forall sz n, vec_cap0 sz n * sz <= MiB2 /\ vec_cap0 sz n <= n.
-Print Assumptions C14_alloc_bound_partial_vec_reservation.
-Check C14_alloc_bound_partial_bytes : forall bs a v r a',
-  t_bytes bs a = TOk v r a' -> a' + nlen r + 4 <= a + nlen bs.
-Print Assumptions C14_alloc_bound_partial_bytes.
-Check C14_alloc_bound_partial_program : forall O tr bs a v r a',
-  t_prog O tr bs a = TOk v r a' -> a' <= a + (1 + clvm_per_byte) * (nlen bs - nlen r) /\ nlen r <= nlen bs.
-Print Assumptions C14_alloc_bound_partial_program.
-Check C14_vec_limit_is_translated : MiB2 = vec_prealloc_limit_bytes.
+Check C14_alloc_step_invariant :
+  forall O, prog_len_pos_hyp O -> forall tr t bs a,
+  match tdecode O tr t bs a with
+  | TOk v r a' => nlen r + min_size t <= nlen bs /\ a' <= a + cfac t * (nlen bs - nlen r)
+  | TErr a' => a' <= a + cfac t * nlen bs + vdepth t * MiB2
+  | TPanic => True
+  end.
+Print Assumptions C14_alloc_step_invariant.
+Check C14_alloc_bounded :
+  forall O, prog_len_pos_hyp O -> forall tr t bs,
+  meter_of (tdecode O tr t bs 0) + scratch_reserve tr t <= alloc_bound t (nlen bs).
+Print Assumptions C14_alloc_bounded.
+Check C14_vec_reservation_bounded :
+  forall sz n, vec_cap0 sz n * sz <= MiB2 /\ vec_cap0 sz n <= n.
+Print Assumptions C14_vec_reservation_bounded.
+Check C14_empty_encoding_has_no_size :
+  forall t, min_size t = 0 -> mem_size t = 0.
+Print Assumptions C14_empty_encoding_has_no_size.
+Check C14_proportional_element_count_refuted :
+  forall O tr n, n < 2 ^ 32 ->
+  decode O tr (Vec (Tup [])) (n2be 4 n) = Some (VList (repeat (VList []) (N.to_nat n)), []).
+Print Assumptions C14_proportional_element_count_refuted.
+Check C14_no_zero_width_vec_in_translated_types :
+  forallb (fun p => vec_elems_consume (snd p)) stream_types = true.
+Print Assumptions C14_no_zero_width_vec_in_translated_types.
+Check C14_vec_limit_is_translated :
+  MiB2 = vec_prealloc_limit_bytes.
 Print Assumptions C14_vec_limit_is_translated.
